@@ -1000,6 +1000,68 @@ class Sym:
             return Poly.sym(self.loop_sym(t[1], str(inner) if inner is not None else "?"))
         return None
 
+    def match_as_unwrap_or(self, l):
+        """`let v = match opt { Some(&a) => a, None => D }` (or `if let .. else`): the local v has exactly two definitions,
+        one the payload of `opt` in a block dominated by `opt is Some`, the other a value D in a block dominated by
+        `opt is None`, both arms of one test.  Returns the term of `opt.copied().unwrap_or(D)` (same value), else None."""
+        cache = self.__dict__.setdefault("_mau", {})
+        if l in cache:
+            return cache[l]
+        cache[l] = None
+        tm = self.an.terms
+        body = self.an.body
+        if tm.defs.partial[l] or len(tm.defs.whole[l]) != 2:
+            return None
+        ds = tm.defs.whole[l]
+        vals = []
+        for d in ds:
+            try:
+                vals.append(self._def_term(d))
+            except Exception:
+                return None
+        for i in (0, 1):
+            pay, other = vals[i], vals[1 - i]
+            x = pay
+            deref = False
+            while x[0] in ("ref", "deref"):
+                deref = deref or x[0] == "deref"
+                x = x[1]
+            if not (x[0] == "field" and x[2] == 0):
+                continue
+            dc = x[1]
+            while dc[0] in ("ref", "deref"):
+                dc = dc[1]
+            if not (dc[0] == "downcast" and dc[2] == "Some"):
+                continue
+            opt = dc[1]
+            # the two definitions sit behind the two outcomes of one test on `opt`
+            tests = []
+            for d in (ds[i], ds[1 - i]):
+                found = None
+                for (s_, t_) in self.an.dominating_edges(d[0]):
+                    try:
+                        dd, rel, vs = self.an.edge_atom(s_, t_)
+                    except Exception:
+                        continue
+                    q = strip(dd)
+                    if q[0] == "discr" and strip(q[1]) == strip(opt):
+                        vs_ = sorted(vs)
+                        some = (rel == "in" and vs_ == [1]) or (rel == "notin" and vs_ == [0])
+                        none = (rel == "in" and vs_ == [0]) or (rel == "notin" and vs_ == [1])
+                        found = (s_, "some" if some else "none" if none else None)
+                tests.append(found)
+            if None in tests or tests[0][0] != tests[1][0] or tests[0][1] != "some" or tests[1][1] != "none":
+                continue
+            from .terms import walk as _walk
+            if any(z[0] in ("var", "loopval") for z in _walk(other)):
+                continue
+            oty = self.type_of(opt)
+            is_ref_payload = bool(oty and oty.get("a") and oty["a"][0].get("k") == "ref")
+            inner = ("call", "std::option::Option::<&T>::copied", (opt,), tests[0][0]) if (deref or is_ref_payload) else opt
+            cache[l] = ("call", "std::option::Option::<T>::unwrap_or", (inner, other), tests[0][0])
+            return cache[l]
+        return None
+
     def tuple_component(self, t):
         """`v.k` where the multi-definition local v holds, on the current path, a tuple/struct literal
         (`let (a, b) = match x { .. => (e1, e2), .. }`): the component term, else None"""
@@ -1378,6 +1440,14 @@ class Sym:
         if k == "index":
             return "%s[%s]" % (self.name(t[1]), self.arg_name(t[2]))
         if k == "var":
+            if self.path_blocks is None and ("mau", t[1]) not in self._busy_vars:
+                mu_ = self.match_as_unwrap_or(t[1])
+                if mu_ is not None:
+                    self._busy_vars.add(("mau", t[1]))
+                    try:
+                        return self.name(mu_)
+                    finally:
+                        self._busy_vars.discard(("mau", t[1]))
             if self.path_blocks is not None and ("nvar", t[1]) not in self._busy_vars:
                 # on a concrete path a multi-definition local has one reaching definition: name that value
                 # (`Some(match x { A => Row{..}, B => Row{..} })` names the row of the path, like `if .. { Some(Row{..}) }`)
